@@ -12,6 +12,7 @@ import (
 	"fmt"
 	"reflect"
 	"sort"
+	"strconv"
 	"strings"
 	"time"
 
@@ -700,10 +701,17 @@ func run(tier, unit string, r *vlib.Rec) {
 	initial := p[1]
 	all := ops()
 	D := depth(tier)
+	if len(p) >= 3 { // "hist:<initial>:<depth>": the thorough tier runs the depth-3 units first, then depth 4
+		D, _ = strconv.Atoi(p[2])
+	}
 	states := map[string]bool{}
 	// unit = range of first operations; enumerate every history with that first operation up to depth D (DFS = BFS by replay here, all depths are visited)
 	var rec func(hist []int)
 	rec = func(hist []int) {
+		if r.Expired() {
+			r.Cap() // soft deadline: what was not explored is not claimed
+			return
+		}
 		res := runHistory(initial, hist, all)
 		r.Eval()
 		r.Add("transitions", int64(len(hist)))
@@ -767,6 +775,15 @@ func plan(tier string) []string {
 	n := int64(len(ops()))
 	for _, in := range initialNames {
 		out = append(out, vlib.Chunks("hist:"+in, n, 1)...)
+	}
+	if tier == "thorough" {
+		// the units above are the depth-3 ones (as in the quick tier); then one level deeper
+		for i := range out {
+			out[i] = strings.Replace(out[i], "hist:"+strings.Split(out[i], ":")[1], "hist:"+strings.Split(out[i], ":")[1]+":3", 1)
+		}
+		for _, in := range initialNames {
+			out = append(out, vlib.Chunks("hist:"+in+":4", n, 1)...)
+		}
 	}
 	return out
 }
